@@ -227,7 +227,7 @@ Definition do_transfer (s : vm) (capnum uncapnum st en : Z) : res vm :=
   | Some s2, Some l2 =>
       let e2 := s2 + l2 in
       let '(a, b) := if e2 <=? a0 then (e2, a0)
-                     else if b0 <=? s2 then (s2, b0)
+                     else if b0 <=? s2 then (b0, s2)
                      else (Z.max a0 s2, Z.min b0 e2) in
       match balance_match uncapnum (mcaps s) with
       | None => Crash C_cap
